@@ -697,6 +697,12 @@ def to_int(v):
 class OArr(_np.ndarray):
     """Object array whose astype(int) keeps symbolic content symbolic."""
 
+    def __array_wrap__(self, arr, context=None, return_scalar=False):
+        # reductions of a subclass would come back as 0-d arrays: hand out the element itself
+        if arr.ndim == 0:
+            return arr[()]
+        return arr.view(OArr)
+
     def astype(self, dtype, *a, **k):
         if has_sym(self) and _np.dtype(dtype).kind in "iu":
             out = _np.empty(self.shape, dtype=object)
